@@ -137,57 +137,76 @@ def _materialised(expr, defs, seen=()):
 
 
 def check_copy_content_snapshot(ctx, rule):
-    """Every object the copy's bytes callback can hand out was created, fully evaluated, while
-    _copy_content ran -- not the source's own buffer, not a lazy iterator over the source."""
+    """_copy_content run as written against a source whose iter_bytes() hands out the source's *own* buffer (a list
+    object on the abstract heap): afterwards the source's buffer grows, and only then are the bytes of the copy asked
+    for.  The copy must still yield the bytes of copy time without going back to the source."""
+    from .. import effects
+    from ..absint import Frame, Interp, State, unbox_deep
+    from ..objects import ObjectDomain
     cc = module_function(ctx, TESTCASE, "_copy_content")
     ctx.analysed(cc)
     p0 = cc.args.args[0].arg
     Q = f"{TESTCASE}:_copy_content"
-    rets = [r for r in walk_shallow(cc, include_self=False) if isinstance(r, ast.Return)]
-    builds = [r.value for r in rets if isinstance(r.value, ast.Call) and (dotted(r.value.func) or "").split(".")[-1] == "Content" and len(r.value.args) == 2]
-    if len(builds) != len(rets) or not builds:
-        raise AnalysisError("anchor vanished: _copy_content no longer returns Content(<type>, <bytes callback>)")
-    defs = {}
-    for n in walk_shallow(cc, include_self=False):
-        if isinstance(n, ast.Assign):
-            for t in n.targets:
-                if isinstance(t, ast.Name):
-                    defs.setdefault(t.id, []).append(n.value)
-        elif isinstance(n, ast.AnnAssign) and n.value is not None and isinstance(n.target, ast.Name):
-            defs.setdefault(n.target.id, []).append(n.value)
-        elif isinstance(n, ast.AugAssign) and isinstance(n.target, ast.Name):
-            defs.setdefault(n.target.id, []).append(n.value)
-    nested = {f.name: f for f in walk_shallow(cc, include_self=False) if isinstance(f, FUNC_TYPES)}
-    for b in builds:
-        a0, a1 = b.args
-        ctx.check(rule, "the copy carries the source's content type", b, dotted(a0) == f"{p0}.content_type",
-                  f"the copy is built with {norm(a0)} instead of {p0}.content_type", construct=f"{Q}::content-type")
-        cb = a1 if isinstance(a1, ast.Lambda) else nested.get(dotted(a1) or "")
-        if cb is None:
-            ctx.check(rule, "the bytes callback of the copy resolves", b, False, f"cannot resolve the bytes callback {norm(a1)}", construct=f"{Q}::callback")
+    SRC, CT = ("wobj", "source"), ("sym", "the-source's-content-type")
+    B1, B2, B3 = ("const", b"first-"), ("const", b"second"), ("const", b"-written-after-the-copy")
+
+    def oracle(n, pos, kw):
+        if n == "source.iter_bytes":
+            return [("val", ("h", "source-buffer"))]
+        return None
+
+    dom = ObjectDomain(ctx.classes, attrs={"source.content_type": CT}, ctors={"Content", "content.Content"}, oracle=oracle, log_cap=30)
+    dom.root_class = None
+    it = Interp(dom, max_depth=6)
+    it.round_cache = {}
+    holder = ast.parse("def _gathering_details():\n    pass").body[0]
+    holder._module, holder._parent, holder._class = cc._module, cc._module.tree, None
+    fr = Frame(holder, 0, None, name="<gathering details>", is_method=False)
+    later = ast.parse("def _reporting_later():\n    pass").body[0]
+    later._module, later._parent, later._class = cc._module, cc._module.tree, None
+    fr_later = Frame(later, 0, None, name="<reporting>", is_method=False)
+    made = it.inline(cc, {p0: SRC}, State([("heap.source-buffer", ("tuple", B1, B2))]), fr, is_method=False)
+    types, shape, back, stale = set(), set(), set(), set()
+    n = 0
+    for r in made:
+        n += 1
+        v = r.value
+        if r.kind != "val" or not (isinstance(v, tuple) and v[:2] == ("new", "Content")):
+            shape.add(f"_copy_content gives {r.kind} {unbox_deep(v, r.state)!r} instead of a Content")
             continue
-        touches = [n for n in ast.walk(cb) if isinstance(n, ast.Name) and n.id == p0]
-        ctx.check(rule, "the bytes callback does not go back to the source", cb, not touches,
-                  f"the callback of the copy reads {p0} when the bytes are asked for: the content is evaluated at reporting time, after the source may have changed or gone",
-                  construct=f"{Q}::callback-lazy")
-        outs = [cb.body] if isinstance(cb, ast.Lambda) else [r.value for r in ast.walk(cb) if isinstance(r, ast.Return) and r.value is not None]
-        local_defs = dict(defs)
-        if not isinstance(cb, ast.Lambda):
-            for n in walk_shallow(cb, include_self=False):
-                if isinstance(n, ast.Assign):
-                    for t in n.targets:
-                        if isinstance(t, ast.Name):
-                            local_defs.setdefault(t.id, []).append(n.value)
-        for o in outs:
-            names = [o.id] if isinstance(o, ast.Name) else []
-            sites = [v for nm in names for v in local_defs.get(nm, [])] or [o]
-            for v in sites:
-                kind = _materialised(v, local_defs)
-                why = {"alias": f"`{norm(v)[:60]}` may be the source's own buffer (whatever object the call hands out): later appends or rewrites of it change the bytes of the gathered copy",
-                       "lazy": f"`{norm(v)[:60]}` is evaluated lazily, when the bytes are asked for",
-                       "unknown": f"cannot tell whether `{norm(v)[:60]}` was materialised when the copy was made"}.get(kind, "")
-                ctx.check(rule, f"the callback hands out `{norm(v)[:50]}`: materialised when the copy was made", v, kind == "eager", why,
-                          construct=f"{Q}::bytes {norm(v)[:60]}")
+        args = dict(zip(("content_type", "get_bytes"), v[2]))
+        args.update(dict(v[3]))
+        if args.get("content_type") != CT:
+            types.add(f"the copy is built with the content type {args.get('content_type')!r} instead of the source's")
+        cb = args.get("get_bytes")
+        before = len([e for e in r.state.get("ev.calls", ()) if e[0].startswith("source.")])
+        s1 = r.state.set("heap.source-buffer", ("tuple", B1, B2, B3))   # the source goes on being written to
+        for r2 in dom.apply(it, cb, [], [], s1, fr_later):
+            n += 1
+            after = len([e for e in r2.state.get("ev.calls", ()) if e[0].startswith("source.")])
+            if after != before:
+                back.add("the callback of the copy goes back to the source when the bytes are asked for: the content is evaluated at reporting time, after the source may have changed or gone")
+                continue
+            if r2.kind != "val":
+                shape.add(f"asking the copy for its bytes raises {r2.value!r}")
+                continue
+            got = unbox_deep(r2.value, r2.state)
+            if isinstance(got, tuple) and got[:1] in (("lazyseq",), ("iter",), ("lazymap",)):
+                stale.add("the copy hands out a generator / iterator object: its bytes can be read only once, and it reads the source's buffer when it is consumed, not when the copy was made")
+                continue
+            els = it._exact_elements(got)
+            joined = b"".join(x[1] for x in els) if els is not None and all(isinstance(x, tuple) and x[:1] == ("const",) and isinstance(x[1], bytes) for x in els) else None
+            if joined != B1[1] + B2[1]:
+                stale.add(f"after the source's buffer grew the copy yields {els if els is not None else unbox_deep(r2.value, r2.state)!r}: the copy hands out the source's own buffer (or a lazy view of it) instead of bytes materialised when the copy was made")
+    ctx.stats["states"] += it.steps
+    for f_ in it.functions:
+        ctx.analysed(f_)
+    if not made:
+        shape.add("no path of _copy_content returns")
+    ctx.check(rule, "_copy_content returns a Content whose bytes can be asked for", cc, not shape, "; ".join(sorted(shape)), examined=n, construct=f"{Q}::callback")
+    ctx.check(rule, "the copy carries the source's content type", cc, not types, "; ".join(sorted(types)), examined=n, construct=f"{Q}::content-type")
+    ctx.check(rule, "the bytes callback does not go back to the source", cc, not back, "; ".join(sorted(back)), examined=n, construct=f"{Q}::callback-lazy")
+    ctx.check(rule, "the copy holds the bytes of copy time whatever happens to the source's buffer afterwards", cc, not stale, "; ".join(sorted(stale)), examined=n, construct=f"{Q}::bytes materialised")
 
 
 def literal_elements(expr, scope_node):
